@@ -139,6 +139,20 @@ pub fn key_alphabet(seed: u64, full: bool) -> KeyAlpha {
 
 // ---- message alphabet ---------------------------------------------------------------------------
 
+/// dense band of lengths: every length up to 300, every multiple of 100 up to 2000 and both neighbours of the usual
+/// chunk and batch sizes (1000, 1024, 2048, 4096, 8192, 10000, 100000)
+pub fn dense_lens() -> Vec<usize> {
+    let mut v: Vec<usize> = (0..=300).collect();
+    v.extend((4..=20).map(|i| i * 100));
+    for c in [1000usize, 1024, 2048, 4096, 8192, 10_000, 100_000] {
+        v.extend([c - 1, c, c + 1]);
+    }
+    v.sort();
+    v.dedup();
+    v
+}
+
+
 #[derive(Clone)]
 pub struct MsgAlpha {
     pub names: Vec<String>,
@@ -477,3 +491,24 @@ where
     }
 }
 pub const DECODERS: [Codec; 5] = [Codec::Bytes, Codec::Bare, Codec::Json, Codec::JsonReader, Codec::JsonValue];
+
+// ---- iterator shapes --------------------------------------------------------------------------------------
+
+/// The same sequence handed over as iterators that report different `size_hint`s: exact (slice), lower bound 0
+/// (filter), exact head + unsized tail (chain), nothing at all (`from_fn`), and a lower bound of 0 with an upper bound
+/// (`take_while`). The trait functions accept any `Iterator`, so their result must not depend on the hint.
+pub fn iterator_shapes<'a, T: Clone + 'a>(v: &'a [T]) -> Vec<(&'static str, Box<dyn Iterator<Item = T> + 'a>)> {
+    let half = v.len() / 2;
+    let mut i = 0usize;
+    vec![
+        ("exact", Box::new(v.iter().cloned()) as Box<dyn Iterator<Item = T> + 'a>),
+        ("filter", Box::new(v.iter().cloned().filter(|_| true))),
+        ("chain-exact-then-filter", Box::new(v[..half].iter().cloned().chain(v[half..].iter().cloned().filter(|_| true)))),
+        ("from_fn", Box::new(std::iter::from_fn(move || {
+            i += 1;
+            v.get(i - 1).cloned()
+        }))),
+        ("take_while", Box::new(v.iter().cloned().take_while(|_| true))),
+        ("flat_map", Box::new(v.iter().cloned().flat_map(|x| std::iter::once(x)))),
+    ]
+}
